@@ -1230,6 +1230,12 @@ func c19(c *core.Ctx) {
 		}
 		c.EndRule()
 	}
+
+	// ---------------------------------------------------------------- R9 (shared)
+	// "each service gets … its own": the generator's function literals (per-file writers, per-method callbacks) do not
+	// capture a variable that the enclosing loop re-assigns on every iteration (C12/R5; the module says go 1.18, where
+	// the loop variable is one variable for the whole loop)
+	c.Borrow("C12", map[string]string{"R5": "R9"}, c12)
 }
 
 func uniqS(s []string) []string {
